@@ -8,7 +8,8 @@ ASSUMPTIONS = ['programs with unique label names and align N >= 1 (the quantifie
 
 def explore(ctx):
     ctx.rule = ('structured layout programs (instructions, all pseudo kinds, data, aligns, gaps at the edges of every '
-                'branch/jump range incl. 1 MiB), both modes; non-trivial = distinct (reference kind, distance, mode)')
+                'branch/jump range incl. 1 MiB), both modes, plus an align sweep: N in 1..17, 32, 64, 100, 4096 at every (large N: sampled) '
+                'residue, alone / twice in a row / around labels / after code; non-trivial = distinct (N, residue) and item shapes')
     layout_engine.explore(ctx, 'C09')
 
 
